@@ -8,6 +8,7 @@ import (
 	"os/exec"
 	"path/filepath"
 	"strconv"
+	"strings"
 	"sync"
 	"syscall"
 	"time"
@@ -81,19 +82,72 @@ func NewDir(prefix string) string {
 	return d
 }
 
-var portMu sync.Mutex
+var (
+	portMu    sync.Mutex
+	portsUsed = map[int]bool{}
+)
 
-// FreePort asks the kernel for an unused TCP port on 127.0.0.1.
+// FreePort asks the kernel for an unused TCP port on 127.0.0.1 that this
+// process has not handed out before. Another process can still grab the port
+// between this call and the server's own bind; Start detects that by checking
+// who owns the listening socket (ownsListener) and retries.
 func FreePort() int {
 	portMu.Lock()
 	defer portMu.Unlock()
-	ln, err := net.Listen("tcp", "127.0.0.1:0")
-	if err != nil {
-		panic(err)
+	for {
+		ln, err := net.Listen("tcp", "127.0.0.1:0")
+		if err != nil {
+			panic(err)
+		}
+		p := ln.Addr().(*net.TCPAddr).Port
+		ln.Close()
+		if portsUsed[p] {
+			continue
+		}
+		if len(portsUsed) > 20000 {
+			portsUsed = map[int]bool{}
+		}
+		portsUsed[p] = true
+		return p
 	}
-	p := ln.Addr().(*net.TCPAddr).Port
-	ln.Close()
-	return p
+}
+
+// ownsListener reports whether process pid holds the socket listening on
+// TCP port (IPv4), by matching the socket inode from /proc/net/tcp against the
+// process's file descriptors. ok=false when /proc cannot answer.
+func ownsListener(pid, port int) (owns bool, ok bool) {
+	b, err := os.ReadFile("/proc/net/tcp")
+	if err != nil {
+		return false, false
+	}
+	want := fmt.Sprintf(":%04X", port)
+	var inodes []string
+	for _, line := range strings.Split(string(b), "\n")[1:] {
+		f := strings.Fields(line)
+		if len(f) < 10 || f[3] != "0A" || !strings.HasSuffix(f[1], want) {
+			continue
+		}
+		inodes = append(inodes, f[9])
+	}
+	if len(inodes) == 0 {
+		return false, true
+	}
+	fds, err := os.ReadDir(fmt.Sprintf("/proc/%d/fd", pid))
+	if err != nil {
+		return false, false
+	}
+	for _, fd := range fds {
+		l, err := os.Readlink(fmt.Sprintf("/proc/%d/fd/%s", pid, fd.Name()))
+		if err != nil {
+			continue
+		}
+		for _, in := range inodes {
+			if l == "socket:["+in+"]" {
+				return true, true
+			}
+		}
+	}
+	return false, true
 }
 
 // Start launches an in-process server and waits until it answers PING.
@@ -175,6 +229,13 @@ func (s *Srv) waitReady() error {
 			c.Close()
 			// SERVER is refused with "LOADING" until the log is replayed.
 			if err == nil && !(v.IsErr() && len(v.Str) >= 7 && v.Str[:7] == "LOADING") {
+				pid := os.Getpid()
+				if s.cmd != nil {
+					pid = s.cmd.Process.Pid
+				}
+				if owns, ok := ownsListener(pid, s.Port); ok && !owns {
+					return fmt.Errorf("port %d is served by a foreign process (lost the bind race)", s.Port)
+				}
 				return nil
 			}
 		}
